@@ -112,6 +112,10 @@ func listenScenario(sp listenSpec) *explore.Scenario {
 		if strings.HasPrefix(sp.Caller, "timeout") {
 			d := 10 * time.Second
 			cfg.ListenForReplyTimeout = &d
+		} else if vs.Choose(2, 0, "a long ListenForReplyTimeout is configured") == 1 {
+			// the caller ends the request long before the configured timeout: the timeout changes nothing
+			d := 24 * time.Hour
+			cfg.ListenForReplyTimeout = &d
 		}
 		backend, err := requestreply.NewPubSubBackend[Res](cfg, marshaler)
 		if err != nil {
